@@ -1662,6 +1662,9 @@ func (db *DB) checkDatabaseBehindReplica(ctx context.Context) error {
 		return fmt.Errorf("rename L0 file: %w", err)
 	}
 	db.invalidatePosCache()
+	if err := internal.FsyncDir(filepath.Dir(localPath)); err != nil {
+		return fmt.Errorf("sync L0 dir: %w", err)
+	}
 
 	db.Logger.Info("fetched latest L0 file from replica",
 		"min_txid", minTXID,
